@@ -61,7 +61,7 @@ Let fns := pfns pr.
 Let G := prog_genv pr.
 
 Lemma HG : length (g_globals G) <= VM_MAX_GLOBALS_N.
-Proof. destruct Hsmall as [(_ & _ & _ & _ & H) _]. unfold G, prog_genv. cbn [g_globals]. rewrite map_length. exact H. Qed.
+Proof. destruct Hsmall as [(_ & _ & _ & H) _]. unfold G, prog_genv. cbn [g_globals]. rewrite map_length. exact H. Qed.
 
 (* the two shapes of a compiled program *)
 Lemma compile_program_cases :
@@ -96,7 +96,7 @@ Qed.
 
 Lemma Hfns : fns_compiled fns G M.
 Proof.
-  destruct Hsmall as [(Hok & Hepi & _ & _ & _) Hms]. specialize (Hms M Hcomp).
+  destruct Hsmall as [(Hok & _ & _ & _) Hms]. specialize (Hms M Hcomp).
   destruct compile_program_cases as (nidx & p0 & entry & Ea & Ei & Hent & [[Eg (code & es & p1 & Ef & HM)] | [Eg (ini & p1 & cg & p2 & ibs & code & es & p3 & Ep & Ecg & Ee & Ef & HM)]]).
   - apply (fns_compiled_intro G M fns nidx p0 code es p1 [] [] Ef).
     + rewrite HM. reflexivity.
@@ -106,7 +106,6 @@ Proof.
     + exact Hms.
     + apply HG.
     + exact Hok.
-    + exact Hepi.
   - apply (fns_compiled_intro G M fns nidx p2 code es p3 ibs
              [{| fe_name := ini; fe_arity := 0; fe_off := 0; fe_len := length ibs; fe_locals := 0 |}] Ef).
     + rewrite HM. reflexivity.
@@ -116,7 +115,6 @@ Proof.
     + exact Hms.
     + apply HG.
     + exact Hok.
-    + exact Hepi.
 Qed.
 
 Lemma Hsim fuel : (forall e, expr_sim fns G M fuel e) /\ (forall s, stmt_sim fns G M fuel s).
@@ -136,7 +134,7 @@ Proof.
   destruct (fparams d) as [|[x t] ps] eqn:Eps; cbn [bind_params]; [|apply Reach_trivial].
   cbn [rev map] in *.
   assert (Hcd0 : code_at cf_d 0 c_d).
-  { destruct Hepi as [-> | [-> _]]; [exists [], [mk OP_PUSH_VOID []; mk OP_RET []]; split; reflexivity|apply code_at_self]. }
+  { rewrite Hepi. exists [], [mk OP_PUSH_VOID []; mk OP_RET []]. split; reflexivity. }
   rewrite <- (Nat.add_0_r (fe_off fe_d)).
   eapply rpost_bind.
   { eapply (proj2 (Hsim fuel) (fbody d) genv [] out0 [] p_d c_d ce_d p_d' None idx fe_d cf_d 0 0 _ [] [] g); try eassumption.
@@ -147,12 +145,10 @@ Proof.
   intros [c3 en3] o2 m Hex Hp. cbn [fst snd] in *.
   destruct c3; cbn [rpost].
   - destruct Hp as (locs' & -> & Hl' & Hm' & Hk').
-    destruct Hepi as [-> | [-> Har']].
-    + assert (Hce : code_at (c_d ++ [mk OP_PUSH_VOID []; mk OP_RET []]) (0 + csize c_d) [mk OP_PUSH_VOID []; mk OP_RET []]).
-      { exists c_d, []. split; [reflexivity|lia]. }
-      vstep Hfed Hcoded Hce step_push_void. vnext Hce.
-      at_code Hce. apply Reach_one. erewrite step_ret; [|eapply fetch_at; eassumption]. reflexivity.
-    + exfalso. eapply always_returns_spec; [exact Har'|exact Hex|reflexivity].
+    assert (Hce : code_at cf_d (0 + csize c_d) [mk OP_PUSH_VOID []; mk OP_RET []]).
+    { rewrite Hepi. exists c_d, []. split; [reflexivity|lia]. }
+    vstep Hfed Hcoded Hce step_push_void. vnext Hce.
+    at_code Hce. apply Reach_one. erewrite step_ret; [|eapply fetch_at; eassumption]. reflexivity.
   - destruct m; try apply Reach_trivial; exact I.
   - destruct m; try apply Reach_trivial; exact I.
   - destruct Hp as [-> Hv]. cbn [ret_result]. reflexivity.
